@@ -259,3 +259,35 @@ package adt
 //@   ensures [boolcmp] isBoolV(left) && isBoolV(right) && op == EqualOp ==> isBoolV(result) && result.(*Bool).B == (left.(*Bool).B == right.(*Bool).B)
 //@   ensures [nullcmp] isNullV(left) && isNullV(right) && (op == EqualOp || op == NotEqualOp) ==> isBoolV(result) && result.(*Bool).B == (op == EqualOp)
 //@   assigns heap
+
+// ---- C06: arithmetic ----
+
+//@ func (*Num).Kind
+//@   ensures result == x.K
+
+//@ func (*OpContext).newNum
+//@   requires d != nil
+//@   ensures old(c.errs) == nil ==> isNumV(result) && fresh(result.(*Num))
+//@   ensures old(c.errs) == nil ==> result.(*Num).K == k
+//@   ensures old(c.errs) == nil ==> result.(*Num).X.ip == old(d.ip) && result.(*Num).X.fp == old(d.fp)
+//@   ensures old(c.errs) == nil ==> result.(*Num).X.Form == old(d.Form) && result.(*Num).X.Negative == old(d.Negative)
+//@   ensures old(c.errs) != nil ==> isBottomV(result)
+//@   assigns c.errs
+
+//@ spec func finiteNum(n *Num) bool { n != nil && wfDec(n.X) && n.X.Form == apd.Finite }
+
+// (P) C06: "the result is an int exactly when the spec says so" (int op int is
+// int, anything involving a float is float) and the value is the one computed
+// by the decimal context; a zero divisor is an error.
+//@ func numOp
+//@   strings abstract
+//@   callsite fn cases apd.(*Context).Add | apd.(*Context).Sub | apd.(*Context).Mul | apd.(*Context).Quo
+//@   requires funcIs(fn, apd.(*Context).Add, apd.(*Context).Sub, apd.(*Context).Mul, apd.(*Context).Quo)
+//@   requires c != nil && c.errs == nil && finiteNum(x) && finiteNum(y) && (x.K == IntKind || x.K == FloatKind) && (y.K == IntKind || y.K == FloatKind)
+//@   ensures [nofab] isNumV(result) || isBottomV(result)
+//@   ensures [kind] isNumV(result) ==> result.(*Num).K == ite(x.K == IntKind && y.K == IntKind, IntKind, FloatKind)
+//@   ensures [add] isNumV(result) && funcIs(fn, apd.(*Context).Add) && funcRecv(fn, *apd.Context).Precision == 0 ==> isSum(result.(*Num).X.ip, result.(*Num).X.fp, x.X.ip, x.X.fp, y.X.ip, y.X.fp)
+//@   ensures [sub] isNumV(result) && funcIs(fn, apd.(*Context).Sub) && funcRecv(fn, *apd.Context).Precision == 0 ==> isDiff(result.(*Num).X.ip, result.(*Num).X.fp, x.X.ip, x.X.fp, y.X.ip, y.X.fp)
+//@   ensures [mul] isNumV(result) && funcIs(fn, apd.(*Context).Mul) && funcRecv(fn, *apd.Context).Precision == 0 ==> isIntProd(result.(*Num).X.ip, result.(*Num).X.fp, x.X.ip, x.X.fp, y.X.ip, y.X.fp)
+//@   ensures [divzero] funcIs(fn, apd.(*Context).Quo) && decSign(y.X.ip, y.X.fp) == 0 ==> isBottomV(result)
+//@   assigns c.errs
